@@ -92,3 +92,27 @@ Theorem C09_written_file_well_formed : forall compress decompress c,
     exists body, vs_bytes s = body ++ trailer_bytes m.
 Proof. exact written_file_wf. Qed.
 Print Assumptions C09_written_file_well_formed.
+
+(* ================= the independent decoder =================
+   Format.decode_file shares nothing with the writer or the cursor: it opens the trailer, walks the
+   index tree from the root by the offsets stored in index entries and decodes every block by its
+   varint framing.  On every well-formed store it returns exactly the content; on every file of the
+   writer model exactly the trailer and the inserted entries. *)
+From Grenad.model Require Import Format.
+From Grenad.proofs Require Import DecoderProofs.
+
+Theorem C09_decoder_on_store : forall decompress file codec root levels bs,
+  wf_store (load_block decompress file codec) root levels bs ->
+  exists nodes, walk decompress file codec (S (N.to_nat levels)) 0 root = Done (content root levels bs, nodes).
+Proof. exact walk_content. Qed.
+Print Assumptions C09_decoder_on_store.
+
+Theorem C09_independent_decoder : forall compress decompress c,
+  (forall b z, compress (wc_codec c) (wc_level c) b = Done z -> decompress (wc_codec c) z = Done b) ->
+  forall es i s lg m, wc_levels c < 256 -> 1 <= wc_interval c -> wc_codec c <= 5 ->
+  w_run_gen vsink vs_wr vs_fl vs_count compress c vs_empty es = (i, Done (s, lg, m)) ->
+  es <> [] -> sorted_strictb (map fst es) = true ->
+  len (vs_bytes s) < 2^64 -> mem_ok lg -> len es < 2^64 ->
+  exists nodes, decode_file decompress (vs_bytes s) = Done (m, es, nodes).
+Proof. exact decode_written. Qed.
+Print Assumptions C09_independent_decoder.
